@@ -44,8 +44,15 @@ def observe_call(call, schema, rules, docs):
         return {"kind": kind, "sel": [[enc_val(v), [enc_val(x) for x in p]] for v, p in out]}
     if kind == "filter":
         fd = rules[r - 1].path.parts[0].filter(doc)
-        return {"kind": kind, "sel": [[enc_val(v), [enc_val(k)]] for v, k in zip(fd.data, fd.keys)]}
+        # nfail: the failure listing of the result object (compared with the same call on fresh objects only)
+        return {"kind": kind, "sel": [[enc_val(v), [enc_val(k)]] for v, k in zip(fd.data, fd.keys)],
+                "nfail": len(fd.get_all_failures())}
     raise ValueError(kind)
+
+
+def spec_view(got):
+    """the part of an observation the specification predicts"""
+    return {k: v for k, v in got.items() if k != "nfail"}
 
 
 def expected_view(res):
@@ -99,7 +106,7 @@ def replay_behaviour(pool, beh):
             raise Mismatch("SchemaUnchanged", f"call {si} {call}: wrote {w.writes}")
         if not w.docs_unchanged:
             raise Mismatch("DocumentUnchanged", f"call {si} {call}")
-        if got != exp:
+        if spec_view(got) != exp:
             raise Mismatch("Repeatable", f"call {si} {call}: real {got} expected {exp}")
         f_schema, f_rules, _ = build_objects(pool)
         import copy as _copy
@@ -129,7 +136,7 @@ def replay_behaviour(pool, beh):
                 hs = calls_only[k % len(calls_only):] + calls_only[:k % len(calls_only)]
                 for h in hs:
                     got = observe_call(h["call"], schema, rules, docs)
-                    if got != expected_view(h["res"]):
+                    if spec_view(got) != expected_view(h["res"]):
                         errors.append(("Repeatable(threads)", f"{h['call']}: {got}"))
                         return
         except Exception as ex:  # noqa
